@@ -204,6 +204,23 @@ void System__check_concurrency(struct System* self)
    E(v, k).consumption_weight == __CPROVER_old(E(v, k).consumption_weight))
 #define WEIGHT_OK(v, k) (!LIVE(v, k) || E(v, k).consumption_weight == E(v, k).consumption_weight) /* not NaN */
 
+/* order clause of enable_var (needed by the traversal in on_disabled_var): the disabled set of every constraint is
+ * the old one without the element of var, remaining entries in the same order. Pointers are only compared.          */
+#define OLD_DL(ci, j) __CPROVER_old(DL(ci).d[j])
+#define OLD_DLN(ci) __CPROVER_old(DL(ci).n)
+#define DL_WAS_VAR(ci, j)                                                                                              \
+  ((size_t)(j) < OLD_DLN(ci) && (OLD_DL(ci, j) == &var->cnsts_.d[0] || OLD_DL(ci, j) == &var->cnsts_.d[1]))
+#define DL_GONE_UPTO0(ci) DL_WAS_VAR(ci, 0)
+#define DL_GONE_UPTO1(ci) (DL_WAS_VAR(ci, 0) || DL_WAS_VAR(ci, 1))
+#define DL_GONE_UPTO2(ci) (DL_WAS_VAR(ci, 0) || DL_WAS_VAR(ci, 1) || DL_WAS_VAR(ci, 2))
+#define DL_GONE_ANY(ci) (DL_GONE_UPTO2(ci) || DL_WAS_VAR(ci, 3))
+#define DL_ORDER_AT(ci, k, k1)                                                                                         \
+  (!((size_t)(k) < DL(ci).n) ||                                                                                        \
+   (DL_GONE_UPTO##k(ci) ? DL(ci).d[k] == OLD_DL(ci, k1) : DL(ci).d[k] == OLD_DL(ci, k)))
+#define DL_ORDER_KEPT(ci)                                                                                              \
+  (DL(ci).n + (DL_GONE_ANY(ci) ? 1 : 0) == OLD_DLN(ci) && DL_ORDER_AT(ci, 0, 1) && DL_ORDER_AT(ci, 1, 2) &&            \
+   DL_ORDER_AT(ci, 2, 3) && (!((size_t)3 < DL(ci).n) || (!DL_GONE_ANY(ci) && DL(ci).d[3] == OLD_DL(ci, 3))))
+
 /* enable_var: a staged variable whose constraints all have room becomes enabled with its staged penalty; every
  * counter stays exact and within its limit */
 void System__enable_var(struct System* self, struct Variable* var)
@@ -217,7 +234,9 @@ void System__enable_var(struct System* self, struct Variable* var)
     /*@ enable_keeps_structure */
     __CPROVER_ensures(1 && WF_STRUCT)                                                    /*@ enable_keeps_structure */
     /*@ enable_keeps_counters_exact_and_within_limits */
-    __CPROVER_ensures(1 && ALLC(INV1))                                                   /*@ enable_keeps_counters_exact_and_within_limits */;
+    __CPROVER_ensures(1 && ALLC(INV1))                                                   /*@ enable_keeps_counters_exact_and_within_limits */
+    /*@ enable_keeps_order_of_remaining_disabled_elements */
+    __CPROVER_ensures(1 && ALLC(DL_ORDER_KEPT))                                          /*@ enable_keeps_order_of_remaining_disabled_elements */;
 
 /* disable_var: an enabled variable leaves every enabled set, its penalty and rate drop to 0, counters stay exact */
 void System__disable_var(struct System* self, struct Variable* var)
@@ -239,20 +258,25 @@ void System__disable_var(struct System* self, struct Variable* var)
 
 /* on_disabled_var(c): wakes staged variables of c while c has room. Called in states where INV2 may be broken (a
  * variable has just left). Afterwards no staged variable that uses c waits while all its constraints have room, and
- * nothing that was fine before is broken. Ghosts g_inv2_0/1: INV2 of each variable at entry (pinned in requires).   */
-_Bool g_inv2_0, g_inv2_1;
+ * nothing that was fine before is broken: counters only grow (a full constraint stays full) and a variable either
+ * keeps its penalties or is woken with its staged penalty.                                                          */
 #define V_FRAME(v) V(v).sharing_penalty_, V(v).staged_sharing_penalty_, V(v).variable_set_hook_, HOOKS_OF(&V(v))
+#define PEN_SAME(v)                                                                                                    \
+  (V(v).sharing_penalty_ == __CPROVER_old(V(v).sharing_penalty_) &&                                                    \
+   V(v).staged_sharing_penalty_ == __CPROVER_old(V(v).staged_sharing_penalty_))
 #define PEN_STEP(v)                                                                                                    \
   ((V(v).sharing_penalty_ == __CPROVER_old(V(v).sharing_penalty_) &&                                                   \
     V(v).staged_sharing_penalty_ == __CPROVER_old(V(v).staged_sharing_penalty_)) ||                                    \
    (__CPROVER_old(V(v).sharing_penalty_) == 0.0 && __CPROVER_old(V(v).staged_sharing_penalty_) > 0.0 &&                \
     V(v).sharing_penalty_ == __CPROVER_old(V(v).staged_sharing_penalty_) && V(v).staged_sharing_penalty_ == 0.0))
-#define INV2_KEPT(v) (!g_inv2_##v || INV2(v))
+#define STAGED_IS_DISABLED(v) (!(V(v).staged_sharing_penalty_ > 0.0) || V(v).sharing_penalty_ == 0.0)
+#define COUNTER_GROWS(ci) (C(ci).concurrency_current_ >= __CPROVER_old(C(ci).concurrency_current_))
 #define USES_PTR_AT(v, k) (LIVE(v, k) && E(v, k).constraint == cnstr)
 #define INV2_ON_CNSTR(v) (!ANYSLOT1(USES_PTR_AT, v) || INV2(v))
 void System__on_disabled_var(struct System* self, struct Constraint* cnstr)
     __CPROVER_requires(self == &g_sys && IS_C(cnstr) && WF_STRUCT && ALLC(INV1) && vf_exc == 0)
-    __CPROVER_requires(g_inv2_0 == INV2(0) && g_inv2_1 == INV2(1))
+    /* the half of INV2 that survives a departure: only disabled variables carry a staged penalty */
+    __CPROVER_requires(ALLV(STAGED_IS_DISABLED))
     __CPROVER_assigns(vf_exc, g_modset_updates, g_sys.variable_set, V_FRAME(0), V_FRAME(1), C_FRAME(0), C_FRAME(1))
     __CPROVER_ensures(vf_exc == 0)                /*@ wakeup_never_overflows_a_limit */
     /*@ wakeup_keeps_structure */
@@ -261,21 +285,27 @@ void System__on_disabled_var(struct System* self, struct Constraint* cnstr)
     __CPROVER_ensures(1 && ALLC(INV1))                 /*@ wakeup_keeps_counters_exact_and_within_limits */
     /*@ wakeup_only_enables_staged_variables_with_their_staged_penalty */
     __CPROVER_ensures(1 && ALLV(PEN_STEP))             /*@ wakeup_only_enables_staged_variables_with_their_staged_penalty */
-    /*@ wakeup_breaks_no_staged_variable */
-    __CPROVER_ensures(1 && ALLV(INV2_KEPT))            /*@ wakeup_breaks_no_staged_variable */
-    /*@ wakeup_leaves_no_staged_variable_of_this_constraint_with_room */
-    __CPROVER_ensures(1 && ALLV(INV2_ON_CNSTR))        /*@ wakeup_leaves_no_staged_variable_of_this_constraint_with_room */;
+    /*@ wakeup_never_frees_a_slot */
+    __CPROVER_ensures(1 && ALLC(COUNTER_GROWS))        /*@ wakeup_never_frees_a_slot */
+    __CPROVER_ensures(cnstr->concurrency_limit_ >= 0 || ALLV(PEN_SAME))
+    /*@ wakeup_on_an_unlimited_constraint_changes_nothing */
+    __CPROVER_ensures(cnstr->concurrency_limit_ < 0 || ALLV(INV2_ON_CNSTR))
+    /*@ wakeup_leaves_no_staged_variable_of_this_limited_constraint_with_room */;
 
 /* update_variable_penalty: the public operation (suspend = 0, resume / change = positive penalty). Top-level
  * postconditions = the property statement: counters exact and within limits, no staged variable waits with room.
  * Ghost g_room: "every constraint used by var has a free slot" at entry.                                           */
 _Bool g_room;
+#define OTHER_STEP(v)                                                                                                  \
+  (&V(v) == var || PEN_SAME(v) || (penalty == 0.0 && __CPROVER_old(var->sharing_penalty_) > 0.0 && PEN_STEP(v)))
 void System__update_variable_penalty(struct System* self, struct Variable* var, double penalty)
     __CPROVER_requires(self == &g_sys && IS_V(var) && WF_STRUCT && ALLC(INV1) && ALLV(INV2) && vf_exc == 0)
     __CPROVER_requires(g_room == ALLSLOT1(V_SLOT_POS, var))
-    __CPROVER_assigns(vf_exc, g_modset_updates, g_sys.modified_, var->sharing_penalty_, var->staged_sharing_penalty_,
-                      var->value_, g_sys.variable_set, var->variable_set_hook_, HOOKS_OF(var), C_FRAME(0), C_FRAME(1))
+    __CPROVER_assigns(vf_exc, g_modset_updates, g_sys.modified_, var->value_, g_sys.variable_set, V_FRAME(0), V_FRAME(1),
+                      C_FRAME(0), C_FRAME(1))
     __CPROVER_ensures(penalty >= 0.0 || vf_exc == VF_EXC_ABORT)        /*@ penalty_must_not_be_negative */
+    /*@ only_a_suspend_touches_other_variables_and_only_to_wake_them */
+    __CPROVER_ensures(1 && ALLV(OTHER_STEP))  /*@ only_a_suspend_touches_other_variables_and_only_to_wake_them */
     __CPROVER_ensures(vf_exc == 0 || (vf_exc == VF_EXC_ABORT && (!(penalty >= 0.0) || vf_log_enabled)))
     /*@ penalty_change_aborts_only_for_that */
     /*@ penalty_change_keeps_variables_well_formed */
@@ -288,7 +318,9 @@ void System__update_variable_penalty(struct System* self, struct Variable* var, 
     __CPROVER_ensures(1 && ALLC(INV1))                                 /*@ penalty_change_keeps_counters_exact_and_within_limits */
     __CPROVER_ensures((penalty == 0.0 && __CPROVER_old(var->sharing_penalty_) > 0.0) || ALLV(INV2))
     /*@ penalty_change_leaves_no_staged_variable_with_room */
-    __CPROVER_ensures(!(penalty == 0.0 && __CPROVER_old(var->sharing_penalty_) > 0.0) || ALLV(INV2))
+    /* vf_exc != 0: only when the lmm log category is at debug level, where the checker called at the end of disable_var
+     * (transient state) aborts the simulation before the wake-up */
+    __CPROVER_ensures(vf_exc != 0 || !(penalty == 0.0 && __CPROVER_old(var->sharing_penalty_) > 0.0) || ALLV(INV2))
     /*@ suspend_leaves_no_staged_variable_with_room */
     __CPROVER_ensures(!(penalty > 0.0 && __CPROVER_old(var->sharing_penalty_) == 0.0 && g_room) ||
                       (var->sharing_penalty_ == penalty && var->staged_sharing_penalty_ == 0.0))
@@ -433,8 +465,6 @@ void harness(void)
 void harness(void)
 {
   setup();
-  g_inv2_0 = nondet_bool();
-  g_inv2_1 = nondet_bool();
   System__on_disabled_var(&g_sys, pick_cnst());
   VF_CANARY_POINT;
 }
